@@ -3,6 +3,6 @@
 # runs a check against a scratch worktree from an isolated copy of /verif (so concurrent work in /verif and /repo is undisturbed)
 wt=$1; prop=$2; tier=${3:-quick}
 dst=/tmp/vm_$(basename $wt)_$prop
-mkdir -p $dst && rsync -a --delete --exclude .git --exclude replays --exclude '.build/go.work*' /verif/ $dst/
+mkdir -p $dst && rsync -a --delete --exclude .git --exclude replays --exclude .build /verif/ $dst/
 cd $dst && VERIF_REPO=$wt ./check $prop --tier $tier; rc=$?
-echo "rc=$rc (copy kept at $dst; remove when done)"
+rm -rf $dst/.build; echo "rc=$rc (copy kept at $dst without build products; remove it when done - disk is limited)"
